@@ -17,9 +17,24 @@
 use log::trace;
 
 use super::node::AffContent;
-use crate::linalg::affine::Polytope;
+use crate::linalg::affine::{AffFunc, Polytope};
 use crate::tree::graph::{Tree, TreeIndex};
 use crate::tree::iter::{DfsNodeData, DfsPre, TraversalMut};
+
+/// The closed region of the inputs that take the edge ``label`` below a decision with predicate ``aff``:
+/// row ``i`` of the predicate holds exactly when bit ``i`` of the label is set (see ``AffTree::evaluate_decision``),
+/// so each row contributes its own half-space, negated when its bit is clear.
+pub(super) fn halfspaces_of_label(aff: &AffFunc, label: usize) -> Polytope {
+    let mut mat = aff.mat.to_owned();
+    let mut bias = aff.bias.to_owned();
+    for i in 0..bias.len() {
+        if (label >> i) & 1 == 0 {
+            mat.row_mut(i).mapv_inplace(|v| -v);
+            bias[i] = -bias[i];
+        }
+    }
+    Polytope::from_mats(mat, bias)
+}
 
 /// A depth-first iterator over an [``crate::pwl::afftree::AffTree``] instance that also provides the path condition
 /// in form of a [``Polytope``].
@@ -75,14 +90,8 @@ impl PolyhedraGen {
                 "Edge {} -{}-> {}",
                 edg.source_idx, edg.label, edg.target_idx
             );
-            let factor = match edg.label {
-                1 => 1.0,
-                0 => -1.0,
-                _ => panic!("label should be 0 or 1, but got {}", &edg.label),
-            };
             let aff = &tree.node_value(edg.source_idx).ok()?.aff;
-            let poly = Polytope::from_mats(&aff.mat * factor, &aff.bias * factor);
-            self.predicates.push(poly);
+            self.predicates.push(halfspaces_of_label(aff, edg.label));
         }
 
         Some((data, &self.predicates))
